@@ -343,6 +343,7 @@ func fitTime(rng *rand.Rand, st, lt string, t time.Time) time.Time {
 }
 
 func runC13(r *Run) {
+	c13Padding(r)
 	n := r.N(220, 6000)
 	tried := 0
 	for i := 0; i < n && tried < 20*n; tried++ {
